@@ -198,6 +198,23 @@ pub struct RunCtx {
     /// flat gate lists per module: (name, size, pos)
     pub flat_gates: Vec<Vec<(String, usize, usize)>>,
     pub ledger: crate::bodies::Ledger,
+    /// user code of another simulation of this process ran inside this one (state leaked between simulations)
+    pub foreign: bool,
+}
+
+thread_local! {
+    static RUN_ID: RefCell<u64> = const { RefCell::new(0) };
+}
+pub fn current_run() -> u64 {
+    RUN_ID.with(|r| *r.borrow())
+}
+/// true (and noted) if the object belongs to an earlier simulation of this process
+fn is_foreign(run_id: u64) -> bool {
+    if run_id == current_run() {
+        return false;
+    }
+    with_ctx(|c| c.foreign = true);
+    true
 }
 
 thread_local! {
@@ -266,6 +283,7 @@ pub fn body_decl_len(body: u8) -> usize {
 // ---------------------------------------------------------------- scripted module
 
 pub struct ScriptMod {
+    pub run_id: u64,
     pub idx: usize,
     pub prog: Rc<NetProgram>,
     pub inc: u16,
@@ -393,6 +411,9 @@ pub fn module_path(prog: &NetProgram, idx: usize) -> String {
 
 impl Module for ScriptMod {
     fn reset(&mut self) {
+        if is_foreign(self.run_id) {
+            return;
+        }
         rec(self.idx, Ev::Reset { inc: self.inc });
         self.inc = self.inc.wrapping_add(1);
         self.rx_count = 0;
@@ -406,7 +427,7 @@ impl Module for ScriptMod {
         let base = self.prog.gstack.len();
         let mut own = ProcessingStack::default();
         for (i, p) in spec.pes.iter().enumerate() {
-            own.append(ScriptPe { m: self.idx, id: (base + i) as u16, spec: p.clone(), prog: self.prog.clone(), token: crate::bodies::Token::pe() });
+            own.append(ScriptPe { run_id: self.run_id, m: self.idx, id: (base + i) as u16, spec: p.clone(), prog: self.prog.clone(), token: crate::bodies::Token::pe() });
         }
         if spec.pes_prepend {
             own.append(stack);
@@ -423,7 +444,7 @@ impl Module for ScriptMod {
     }
 
     fn at_sim_start(&mut self, stage: usize) {
-        if is_silent(self.idx) {
+        if is_foreign(self.run_id) || is_silent(self.idx) {
             return;
         }
         rec(self.idx, Ev::Start { stage: stage as u8, inc: self.inc });
@@ -456,7 +477,7 @@ impl Module for ScriptMod {
     }
 
     fn handle_message(&mut self, msg: Message) {
-        if is_silent(self.idx) {
+        if is_foreign(self.run_id) || is_silent(self.idx) {
             return;
         }
         let kind = msg.header().kind;
@@ -547,7 +568,7 @@ impl Module for ScriptMod {
     }
 
     fn at_sim_end(&mut self) -> Result<(), RuntimeError> {
-        if is_silent(self.idx) {
+        if is_foreign(self.run_id) || is_silent(self.idx) {
             return Ok(());
         }
         rec(self.idx, Ev::End { inc: self.inc });
@@ -575,6 +596,7 @@ impl Module for ScriptMod {
 // ---------------------------------------------------------------- scripted processing element
 
 pub struct ScriptPe {
+    pub run_id: u64,
     pub m: usize,
     pub id: u16,
     pub spec: PeSpec,
@@ -616,12 +638,18 @@ fn next_pe_send() -> usize {
 
 impl ProcessingElement for ScriptPe {
     fn event_start(&mut self) {
+        if is_foreign(self.run_id) {
+            return;
+        }
         rec(self.m, Ev::PeStart { pe: self.id });
         if self.spec.send_hook == 1 {
             self.maybe_send(1, next_pe_send());
         }
     }
     fn incoming(&mut self, mut msg: Message) -> Option<Message> {
+        if is_foreign(self.run_id) {
+            return Some(msg);
+        }
         let uid = src_to_uid(msg.header().src);
         let kind = msg.header().kind;
         rec(self.m, Ev::PeIn { pe: self.id, uid, kind });
@@ -660,6 +688,9 @@ impl ProcessingElement for ScriptPe {
         }
     }
     fn event_end(&mut self) {
+        if is_foreign(self.run_id) {
+            return;
+        }
         rec(self.m, Ev::PeEnd { pe: self.id });
         if self.spec.send_hook == 3 {
             self.maybe_send(3, next_pe_send());
@@ -696,6 +727,8 @@ pub struct NetResult {
     pub ledger: crate::bodies::LedgerReport,
     pub active_at_end: Vec<bool>,
     pub started: bool,
+    /// user code of an earlier simulation of this process ran during this one
+    pub foreign: bool,
 }
 
 pub fn sanitize_order(prog: &NetProgram) -> Vec<usize> {
@@ -835,8 +868,9 @@ pub fn run_net(prog: &NetProgram, opts: &RunOpts) -> NetResult {
     let nmod = prog.modules.len();
     let flat: Vec<Vec<(String, usize, usize)>> = prog.modules.iter().map(flat_gates).collect();
     CTX.with(|c| {
-        *c.borrow_mut() = Some(RunCtx { trace: Vec::new(), ids: BTreeMap::new(), building: 0, prog: prog.clone(), flat_gates: flat.clone(), ledger: crate::bodies::Ledger::default() });
+        *c.borrow_mut() = Some(RunCtx { trace: Vec::new(), ids: BTreeMap::new(), building: 0, prog: prog.clone(), flat_gates: flat.clone(), ledger: crate::bodies::Ledger::default(), foreign: false });
     });
+    RUN_ID.with(|r| *r.borrow_mut() += 1);
     PE_SENDS.with(|p| *p.borrow_mut() = 0);
     TWIN.with(|t| *t.borrow_mut() = opts.twin);
     SILENT.with(|s| s.borrow_mut().clear());
@@ -850,7 +884,7 @@ pub fn run_net(prog: &NetProgram, opts: &RunOpts) -> NetResult {
             let m = with_ctx(|c| c.building).unwrap_or(0);
             let mut st = ProcessingStack::default();
             for (i, p) in gp.gstack.iter().enumerate() {
-                st.append(ScriptPe { m, id: i as u16, spec: p.clone(), prog: gp.clone(), token: crate::bodies::Token::pe() });
+                st.append(ScriptPe { run_id: current_run(), m, id: i as u16, spec: p.clone(), prog: gp.clone(), token: crate::bodies::Token::pe() });
             }
             st
         };
@@ -883,7 +917,7 @@ pub fn run_net(prog: &NetProgram, opts: &RunOpts) -> NetResult {
                     };
                     with_ctx(|c| c.building = 255);
                     let r = std::panic::catch_unwind(std::panic::AssertUnwindSafe(|| {
-                        sim.node(path.as_str(), ScriptMod { idx: 255, prog: Rc::new(NetProgram { modules: vec![ModSpec::default(); 256], ..Default::default() }), inc: 0, rx_count: 0, token: None });
+                        sim.node(path.as_str(), ScriptMod { run_id: current_run(), idx: 255, prog: Rc::new(NetProgram { modules: vec![ModSpec::default(); 256], ..Default::default() }), inc: 0, rx_count: 0, token: None });
                     }));
                     crate::clear_panic();
                     build.bad_nodes.push((bi, r.is_err()));
@@ -892,7 +926,7 @@ pub fn run_net(prog: &NetProgram, opts: &RunOpts) -> NetResult {
             with_ctx(|c| c.building = mi);
             let path = module_path(&prog, mi);
             let r = std::panic::catch_unwind(std::panic::AssertUnwindSafe(|| {
-                sim.node(path.as_str(), ScriptMod { idx: mi, prog: prog.clone(), inc: 0, rx_count: 0, token: crate::bodies::Token::new_opt() });
+                sim.node(path.as_str(), ScriptMod { run_id: current_run(), idx: mi, prog: prog.clone(), inc: 0, rx_count: 0, token: crate::bodies::Token::new_opt() });
             }));
             if r.is_err() {
                 crate::clear_panic();
@@ -1104,6 +1138,7 @@ pub fn run_net(prog: &NetProgram, opts: &RunOpts) -> NetResult {
     }
     let ctx = CTX.with(|c| c.borrow_mut().take());
     if let Some(c) = ctx {
+        res.foreign = c.foreign;
         res.trace = c.trace;
         res.ledger = c.ledger.report();
     }
